@@ -221,7 +221,9 @@ def main():
             "replay_cmd_template": f"./check {pid} --replay {{path}}",
             "engine": "sa",
             "level_claimed": {"category": "other", "text": text, "design_ref": ref},
-            "level_note": note,
+            "level_note": note + " The list of rules actually decided on a run (ids and what each requires) is in the evidence file under "
+                                 "coverage.rules and, for the current tree, in the generated table of DESIGN.md 10.2; rules added after the defect-hunting "
+                                 "and seeding rounds are listed there.",
             "technique": "static analysis: " + tech,
         })
     na = []
